@@ -6,6 +6,9 @@ on the *original, untruncated* `nu.integrate` / `model.mass` at exactly the inte
 (`queries1d`, `queriesNd`); truncation, clamping, cell structure, blocks, sums are the model's own.
 S (oracle, independent of the model): Σ rates = intensity, rates >= -1e-15, every state inside its own cell, cells
 tile the truncated support, truncation does not change a rate, each rate = scipy quadrature of the density on the cell.
+The density / mass is always that of the model the caller PASSED IN: for a model whose measure had been restricted before
+(truncate_levy_measure, TruncatedLevyMeasure, `.model` of another chain) the cells are cut with the intersection of the
+earlier intervals and integrated against the family's un-restricted density (streams 1d_pre, synthetic_pre).
 """
 from __future__ import annotations
 
@@ -29,7 +32,7 @@ from rpylib.distribution.samplingfactory import (create_q_vector, compute_intens
                                                  create_sampling_inversion_method)
 from rpylib.distribution.variate.binarysearchtreeadapted import BinarySearchTreeAdapted
 from rpylib.grid.grid import Coordinates
-from rpylib.model.levymodel.levymodel import LevyRepresentation
+from rpylib.model.levymodel.levymodel import LevyRepresentation, TruncatedLevyMeasure
 from rpylib.process.markovchain.markovchain import MarkovChainProcess
 from rpylib.process.markovchain.markovchainlevycopula import MarkovChainLevyCopula
 
@@ -38,6 +41,13 @@ RULE = ("structured 1-d: model families (HEM, Merton, VG, CGMY in all five activ
         "BINARYSEARCHTREEADAPTED1D; synthetic exact: random dyadic axes x piecewise-constant dyadic densities (zoo.TableMeasure), "
         "masses computed by the model itself and compared exactly; copula: margins drawn from the families x Clayton/independent/"
         "dependent x fixed-size, geometric-with-bounds and credit grids of 5..9 points per axis, and raw CTMCGrids whose axes have pairwise different lengths, x d in {2,3} x 0..1 refinements. "
+        "models restricted before (1d_pre / synthetic_pre): a model of the families (or the exact table) whose Levy measure was restricted 1..3 times "
+        "before it is handed to the chain -- public LevyModel.truncate_levy_measure, the TruncatedLevyMeasure class, or because it is the "
+        "`.model` of an earlier chain on another (fixed-size / geometric-with-bounds) grid, in any order -- with every end placed relative to the "
+        "grid (inside between states, exactly on a state / a cell boundary / the grid bound, 1.25..5x wider, one side inside the origin's cell), "
+        "x fixed-size, geometric-with-bounds, uniform, geometric and credit grids (built from the un-restricted model) x 0..2 refinements; the "
+        "rates are judged against the measure of the model PASSED IN: the family's un-restricted density / closed-form mass (table: exact mass) "
+        "on each cell cut with the intersection of the earlier intervals. "
         "non-trivial = the grid was built, is well formed (C13) and has >= 5 points per axis; distinct = distinct "
         "(model, parameters, constructor arguments, refinements, method)")
 NOT_PROVED = [
@@ -54,6 +64,12 @@ ASSUMPTIONS = [
     "integrate()/mass() at the model's boundaries are compared at 2^-40 relative to the mass",
     "quadrature oracle: scipy.integrate.quad(epsabs=0, epsrel=1e-11) of the untruncated density on the cell, tolerance 1e-7 "
     "relative + 1e-13*intensity absolute",
+    "a model whose measure was restricted to intervals I1..Im before (truncate_levy_measure / TruncatedLevyMeasure / `.model` of a chain) "
+    "is read as the Levy model whose measure is the family's measure restricted to the intersection of I1..Im (C09's statement on the "
+    "truncated measure); its cell masses are computed by the harness from the family's un-restricted measure on (cell cut with the "
+    "intersection): quadrature of the density at the tolerance above, and the family's own integrate() at 1e-10 relative + 1e-13*intensity "
+    "(probes c01.rate_is_input_measure_cell_mass, c01.intensity_is_input_measure_mass); grids of these streams are built from the "
+    "un-restricted model (what a model-driven grid constructor makes of a restricted model is C13's subject)",
 ]
 TRUSTED = ["scipy.integrate.quad (oracle only)", "scipy.special functions inside the families' integrate() (C09)"]
 
@@ -106,8 +122,18 @@ def mid_table(g, ax, o):
 
 
 # ------------------------------------------------------------------------------------------------- S: 1-d oracles
-def oracle_1d(ctx, d, cls, g, ax, o, q, q_untruncated, intensity, lo, hi, density, nquad, exact_mass=None):
-    """the property on the implementation; returns False after the first failure"""
+def clip_to(support, a, b):
+    """[a, b] cut with the interval the caller's measure was restricted to before (None when nothing is left)"""
+    if support is None:
+        return a, b
+    a, b = max(a, support[0]), min(b, support[1])
+    return (a, b) if a < b else None
+
+
+def oracle_1d(ctx, d, cls, g, ax, o, q, q_untruncated, intensity, lo, hi, density, nquad, exact_mass=None, support=None):
+    """the property on the implementation; returns False after the first failure.  `density` / `exact_mass` describe the
+    measure of the model the caller passed in; when that measure had been restricted before (`support` = intersection of the
+    earlier restrictions) they are the un-restricted density / mass and every cell is cut with `support` here"""
     n = len(ax)
     # cells tile the truncated support, no gap / no overlap
     for k in range(n - 1):
@@ -147,17 +173,22 @@ def oracle_1d(ctx, d, cls, g, ax, o, q, q_untruncated, intensity, lo, hi, densit
     ks = [k for k in range(n) if k != o]
     if exact_mass is not None:
         for k in ks:
-            e = exact_mass(lo[k], hi[k])
+            cut = clip_to(support, lo[k], hi[k])
+            e = exact_mass(*cut) if cut else Fraction(0)
             if fr(q[k]) != e:
                 ctx.fail("oracle", "c01.rate_is_cell_mass", d, {"k": k, "rate": float(q[k]), "exact": str(e)}, cls=cls)
                 return False
     elif density is not None and nquad:
         pick = ks if nquad >= len(ks) else sorted(set([0, o - 1, o + 1, n - 1] + ctx.rng.sample(ks, min(nquad, len(ks)))) - {o})
         for k in pick:
-            v, _err = quad(density, lo[k], hi[k], epsabs=0.0, epsrel=1e-11, limit=200,
-                           points=[ax[k]] if lo[k] < ax[k] < hi[k] else None)
+            cut = clip_to(support, lo[k], hi[k])
+            v = 0.0
+            if cut:
+                v, _err = quad(density, cut[0], cut[1], epsabs=0.0, epsrel=1e-11, limit=200,
+                               points=[ax[k]] if cut[0] < ax[k] < cut[1] else None)
             if not abs(float(q[k]) - v) <= 1e-7 * abs(v) + 1e-13 * abs(intensity):
-                ctx.fail("oracle", "c01.rate_is_cell_mass", d, {"k": k, "cell": [lo[k], hi[k]], "rate": float(q[k]), "quadrature": v},
+                ctx.fail("oracle", "c01.rate_is_cell_mass", d, {"k": k, "cell": [lo[k], hi[k]], "rate": float(q[k]), "quadrature": v,
+                                                              **({"input_measure_restricted_to": list(support)} if support else {})},
                          cls=cls)
                 return False
         ctx.branches["c01.quadrature_cells"] += len(pick)
@@ -165,7 +196,38 @@ def oracle_1d(ctx, d, cls, g, ax, o, q, q_untruncated, intensity, lo, hi, densit
 
 
 # ------------------------------------------------------------------------------------------------- C + S: one 1-d chain
-def chain1d_probe(ctx, d, cls, model, g, method_name, nquad, corr=True, synthetic=None):
+def input_measure_oracle(ctx, d, cls, base, support, ax, o, lo, hi, hl, hr, q, intensity):
+    """S for a model whose measure had been restricted before it was handed to the chain: the Levy measure of THAT model is the
+    family's measure restricted to `support` (the intersection of all earlier restrictions), so the rate of a state is the
+    family's mass of (its cell cut with `support`) -- 0 for a cell outside -- and the intensity is the mass of `support` cut with
+    the grid, minus the central cell.  `base` is the family's own un-restricted measure (closed forms: C09's subject); the
+    quadrature of its density on the cut cells is done in oracle_1d"""
+    n = len(ax)
+    tol = lambda e: 1e-10 * abs(e) + 1e-13 * abs(intensity)
+    for k in range(n):
+        if k == o:
+            continue
+        cut = clip_to(support, lo[k], hi[k])
+        e = float(base.integrate(cut[0], cut[1])) if cut else 0.0
+        if not abs(float(q[k]) - e) <= tol(e):
+            ctx.fail("oracle", "c01.rate_is_input_measure_cell_mass", d,
+                     {"k": k, "x": ax[k], "cell": [lo[k], hi[k]], "input_measure_restricted_to": list(support), "rate": float(q[k]),
+                      "mass_of_cell_under_input_measure": e}, cls=cls)
+            return False
+    tot = 0.0
+    for a, b in ((ax[0], hl), (hr, ax[-1])):
+        cut = clip_to(support, a, b)
+        tot += float(base.integrate(cut[0], cut[1])) if cut else 0.0
+    if not abs(float(intensity) - tot) <= 1e-10 * abs(tot) + 1e-300:
+        ctx.fail("oracle", "c01.intensity_is_input_measure_mass", d,
+                 {"intensity_of_jumps": float(intensity), "mass_outside_central_cell_under_input_measure": tot,
+                  "input_measure_restricted_to": list(support), "grid_bounds": [ax[0], ax[-1]]}, cls=cls)
+        return False
+    return True
+
+
+def chain1d_probe(ctx, d, cls, model, g, method_name, nquad, corr=True, synthetic=None, base=None, support=None):
+    """`base` / `support`: the caller's model carries `base` restricted to `support` (earlier truncations, see pretruncated_probe)"""
     ax = [float(x) for x in g.axes[0]]
     o = int(g.origin_coordinate.value)
     n = len(ax)
@@ -192,8 +254,11 @@ def chain1d_probe(ctx, d, cls, model, g, method_name, nquad, corr=True, syntheti
     if synthetic is not None:
         tm = synthetic
         exact_mass = lambda a, b: tm._exact(a, b, 0)
-    ok = oracle_1d(ctx, d, cls, g, ax, o, q, q0, intensity, lo, hi, None if synthetic is not None else nu0, nquad,
-                   exact_mass=exact_mass)
+    ok = oracle_1d(ctx, d, cls, g, ax, o, q, q0, intensity, lo, hi,
+                   None if synthetic is not None else (base if support is not None else nu0), nquad,
+                   exact_mass=exact_mass, support=support)
+    if ok and support is not None:
+        ok = input_measure_oracle(ctx, d, cls, base, support, ax, o, lo, hi, hl, hr, q, intensity)
     if ok and method_name == "INVERSION" and intensity > 0:
         # the inversion sampler's per-state probability is rate / intensity (S: against create_q_vector, itself checked above)
         prob = mc.sampling.probability_to_jump_to_state
@@ -291,27 +356,32 @@ def refine_cells_probe(ctx, d, cls, base_axis, o, k, g):
                                                           "impl_axis": ax[:9], "model_axis": [str(x) for x in m_ax[:9]]}, cls=cls)
 
 
+def draw_grid_kw(rng, kind):
+    """spatial step and constructor arguments of one of the six grid constructors"""
+    h = rng.choice([0.2, 0.1, 0.05, 0.02])
+    kw = {}
+    if kind in ("uniform", "geometric"):
+        kw["truncation_probability"] = rng.choice([0.99, 0.999, 0.99999])
+    if kind in ("geometric", "geometric_bounds"):
+        kw["nb"] = rng.choice([2, 3, 5, 8])
+    if kind == "geometric_bounds":
+        kw["truncations"] = (-rng.choice([0.5, 1.0, 2.0]), rng.choice([0.75, 1.5, 3.0]))
+    if kind == "fixed":
+        kw["nb_of_points"] = rng.choice([3, 5, 8, 9, 21])
+    if kind == "probstep":
+        kw["minimum_probability_step"] = rng.choice([0.05, 0.1, 0.2])
+        h = max(h, 0.05)
+    if kind == "credit":
+        kw["level_a"] = -rng.choice([0.25, 0.3, 0.5])
+    return h, kw
+
+
 def run_1d(ctx, nmodels, kmax, nquad, corr=True):
     rng = ctx.rng
-    hs = [0.2, 0.1, 0.05, 0.02]
     for fam, params in zoo.model_stream(rng, nmodels):
         model = zoo.make_levy(fam, params)
         for kind in zoo.GRID_KINDS:
-            h = rng.choice(hs)
-            kw = {}
-            if kind in ("uniform", "geometric"):
-                kw["truncation_probability"] = rng.choice([0.99, 0.999, 0.99999])
-            if kind in ("geometric", "geometric_bounds"):
-                kw["nb"] = rng.choice([2, 3, 5, 8])
-            if kind == "geometric_bounds":
-                kw["truncations"] = (-rng.choice([0.5, 1.0, 2.0]), rng.choice([0.75, 1.5, 3.0]))
-            if kind == "fixed":
-                kw["nb_of_points"] = rng.choice([3, 5, 8, 9, 21])
-            if kind == "probstep":
-                kw["minimum_probability_step"] = rng.choice([0.05, 0.1, 0.2])
-                h = max(h, 0.05)
-            if kind == "credit":
-                kw["level_a"] = -rng.choice([0.25, 0.3, 0.5])
+            h, kw = draw_grid_kw(rng, kind)
             try:
                 g, gd = zoo.make_grid(kind, model, h, **kw)
             except Exception as e:          # constructor rejected these arguments (C13's subject)
@@ -367,6 +437,15 @@ def synthetic_probe(ctx, d, corr=True):
     for _ in range(d["k"]):
         g.refine()
     cls = dict(stream="synthetic", kind="synthetic", family="table", k=d["k"])
+    if d.get("pre"):
+        # the model's measure was restricted before (1-3 times, API or wrapper class): the measure of the model handed to the chain
+        # is the table cut with the intersection, which the harness computes by itself -- oracle and Lean model get that table
+        for how, l, r in d["pre"]:
+            restrict(model, how, l, r)
+        support = (max(Fraction(l) for _, l, _r in d["pre"]), min(Fraction(r) for _, _l, r in d["pre"]))
+        tm = zoo.TableMeasure(*restricted_table(tm.knots, tm.heights, support))
+        cls = dict(cls, stream="synthetic_pre", history="t" * len(d["pre"]))
+        ctx.branches[f"c01.synthetic_pre:{len(d['pre'])}"] += 1
     method = d["method"]
     half = Fraction(d["h"]) / 2 ** (d["k"] + 1)
     if tm._exact(d["axis"][0], -half, 0) + tm._exact(half, d["axis"][-1], 0) == 0:
@@ -375,6 +454,181 @@ def synthetic_probe(ctx, d, corr=True):
         method = "BINARYSEARCHTREEADAPTED1D"
         ctx.branches["c01.synthetic:zero_intensity"] += 1
     guarded(ctx, d, cls, chain1d_probe, ctx, d, cls, model, g, method, 0, corr=corr, synthetic=tm)
+
+
+# ------------------------------------------------------------------------- models whose measure was restricted before
+# "every supported Levy model": a model whose Levy measure was restricted earlier -- by the public
+# `LevyModel.truncate_levy_measure`, by wrapping it in a `TruncatedLevyMeasure`, or because it is the `.model` of another chain
+# (MarkovChainProcess hands out a deep copy truncated to that chain's grid) -- is a Levy model whose measure is the family's
+# measure restricted to the intersection of those intervals.  The chain built on it must give every state the mass of its
+# cell under THAT measure, whatever the position of the earlier intervals relative to the grid (narrower, wider, overlapping
+# on one side, cut exactly on a state / a cell boundary / the grid bound, no mass on one side of the origin).
+def restrict(model, how, l, r):
+    if how == "api":
+        model.truncate_levy_measure((l, r))
+    else:
+        model.levy_triplet.nu = TruncatedLevyMeasure(model.levy_triplet.nu, (l, r))
+
+
+def build_with_history(fam, params, history, method_name):
+    """(model as handed to the chain, the family's un-restricted measure, intersection of the earlier restrictions)"""
+    model = zoo.make_levy(fam, params)
+    base = model.levy_triplet.nu
+    L, R = -math.inf, math.inf
+    for st in history:
+        if st["how"] == "chain":              # the model of an earlier chain on another grid
+            g1 = grid_from_desc(zoo.make_levy(fam, params), st["grid"])
+            for _ in range(st.get("k", 0)):
+                g1.refine()
+            model = MarkovChainProcess(model, METHODS[method_name], g1).model
+            l, r = float(g1.axes[0][0]), float(g1.axes[0][-1])
+        else:
+            l, r = float(st["l"]), float(st["r"])
+            restrict(model, st["how"], l, r)
+        L, R = max(L, l), min(R, r)
+    return model, base, (L, R)
+
+
+def draw_bound(rng, ax, o, h, side):
+    """one end of an earlier restriction, placed relative to the grid: inside (between / on states, on a cell boundary), on the
+    grid bound, beyond it; always further out than 0.7 h (so that the first cell on that side keeps some mass)"""
+    pts = ax[o + 1:] if side > 0 else [-x for x in ax[:o][::-1]]          # distances of the states on that side, increasing
+    E = pts[-1]
+    u = rng.random()
+    if u < 0.30:
+        v = float(f"{rng.choice([0.35, 0.6, 0.85]) * E:.4g}")
+    elif u < 0.45:
+        v = rng.choice(pts)                                                  # exactly on a state (possibly the last one)
+    elif u < 0.60 and len(pts) > 1:
+        j = rng.randrange(len(pts) - 1)
+        v = 0.5 * (pts[j] + pts[j + 1])                                      # exactly on a cell boundary
+    elif u < 0.70:
+        v = E                                                                # exactly the grid bound
+    else:
+        v = float(f"{rng.choice([1.25, 2.0, 5.0]) * E:.4g}")                 # wider than the grid
+    return side * max(v, 0.7 * h)
+
+
+def draw_restriction(rng, ax, o, h):
+    l, r = draw_bound(rng, ax, o, h, -1), draw_bound(rng, ax, o, h, +1)
+    u = rng.random()
+    if u < 0.06:
+        l = -h / 4                       # nothing left of the origin's cell
+    elif u < 0.12:
+        r = h / 4
+    return dict(how=rng.choice(["api", "api", "class"]), l=l, r=r)
+
+
+def draw_earlier_grid(rng, h):
+    """explicit-extent grid of an earlier chain (its bounds become a restriction of the model it hands out)"""
+    if rng.random() < 0.5:
+        return dict(kind="fixed", h=rng.choice([h, h, 2 * h, h / 2]), nb=rng.choice([3, 5, 8]), dim=1)
+    return dict(kind="geometric_bounds", h=h, nb=rng.choice([2, 3, 5]), dim=1,
+                tr=[-rng.choice([0.3, 0.5, 1.0, 2.0]), rng.choice([0.4, 0.75, 1.5, 3.0])])
+
+
+PRE_KINDS = ["fixed", "fixed", "geometric_bounds", "geometric_bounds", "uniform", "geometric", "credit"]
+PRE_SHAPES = ["t", "t", "tt", "tt", "ttt", "c", "c", "ct", "tc"]
+
+
+def run_pretruncated(ctx, ncases, kmax, nquad, corr=True):
+    rng = ctx.rng
+    done = tries = 0
+    while done < ncases and tries < 4 * ncases:
+        tries += 1
+        fam = rng.choice(zoo.FAMILIES)
+        params = zoo.draw_params(rng, fam) if rng.random() < 0.75 else {}
+        kind = rng.choice(PRE_KINDS)
+        h, kw = draw_grid_kw(rng, kind)
+        if kind == "fixed":
+            kw["nb_of_points"] = rng.choice([5, 8, 9, 21])
+        try:
+            g, gd = zoo.make_grid(kind, zoo.make_levy(fam, params), h, **kw)
+        except Exception as e:              # constructor rejected these arguments (C13's subject)
+            ctx.branches[f"c01.ctor_raises:{kind}:{type(e).__name__}"] += 1
+            continue
+        ax0, o0 = [float(x) for x in g.axes[0]], int(g.origin_coordinate.value)
+        if not axis_ok(ax0, o0) or len(ax0) < 5:
+            ctx.branches[f"c01.skipped_not_wellformed:{kind}"] += 1
+            continue
+        k = rng.randint(0, kmax)
+        while k > 0 and (len(ax0) - 1) * 2 ** k + 1 > 300:
+            k -= 1
+        history = []
+        for c in rng.choice(PRE_SHAPES):
+            if c == "t":
+                history.append(draw_restriction(rng, ax0, o0, h))
+            else:
+                history.append(dict(how="chain", grid=draw_earlier_grid(rng, h), k=rng.choice([0, 0, 1])))
+        method = "INVERSION" if rng.random() < 0.7 else "BINARYSEARCHTREEADAPTED1D"
+        d = dict(stream="1d_pre", family=fam, params=params, grid=gd, k=k, method=method, history=history)
+        pretruncated_probe(ctx, d, nquad, corr=corr)
+        done += 1
+
+
+def pretruncated_probe(ctx, d, nquad, corr=True):
+    cls = dict(stream="1d_pre", kind=d["grid"]["kind"], family=d["family"], k=d["k"],
+               history="".join("c" if st["how"] == "chain" else "t" for st in d["history"]))
+    guarded(ctx, d, cls, _pretruncated_probe, ctx, d, cls, nquad, corr)
+
+
+def _pretruncated_probe(ctx, d, cls, nquad, corr):
+    fam, params = d["family"], d["params"]
+    g = grid_from_desc(zoo.make_levy(fam, params), d["grid"])
+    ax0, o0 = [float(x) for x in g.axes[0]], int(g.origin_coordinate.value)
+    for _ in range(d["k"]):
+        g.refine()
+    ax, o = [float(x) for x in g.axes[0]], int(g.origin_coordinate.value)
+    model, base, support = build_with_history(fam, params, d["history"], d["method"])
+    hl, hr = 0.5 * ax[o - 1], 0.5 * ax[o + 1]
+    outside = [c for c in (clip_to(support, ax[0], hl), clip_to(support, hr, ax[-1])) if c]
+    if not any(base.integrate(a, b) > 0 for a, b in outside):
+        # the earlier restrictions leave nothing outside the origin's cell: a chain that never jumps (degenerate, see synthetic_probe)
+        ctx.count("c01.chain1d.pretruncated", d, nontrivial=False, branch="zero_intensity")
+        return
+    rel = ("inside" if ax[0] < support[0] and support[1] < ax[-1] else "wider" if support[0] <= ax[0] and ax[-1] <= support[1]
+           else "overlap")
+    ctx.count("c01.chain1d.pretruncated", d, nontrivial=True, branch=f"{cls['history']}:{rel}")
+    before = (type(model.levy_triplet.nu), getattr(model.levy_triplet.nu, "truncations", None))
+    chain1d_probe(ctx, d, cls, model, g, d["method"], nquad, corr=corr, base=base, support=support)
+    after = (type(model.levy_triplet.nu), getattr(model.levy_triplet.nu, "truncations", None))
+    if before != after:                      # the caller's model must stay the caller's (the chain works on a copy)
+        ctx.fail("oracle", "c01.rate_is_input_measure_cell_mass", d, {"what": "building the chain changed the measure of the model passed in",
+                                                                      "before": repr(before), "after": repr(after)}, cls=cls)
+    if corr and d["k"] > 0:
+        refine_cells_probe(ctx, d, cls, ax0, o0, d["k"], g)
+
+
+def restricted_table(knots, heights, support):
+    """the piecewise-constant density cut with `support`, computed on the harness side (exact, dyadic)"""
+    L, R = support
+    ks, hs = [], []
+    for k0, k1, h in zip(knots, knots[1:], heights):
+        a, b = max(k0, L), min(k1, R)
+        if a < b:
+            if not ks:
+                ks.append(a)
+            elif ks[-1] != a:               # cannot happen (pieces are adjacent), kept as a guard
+                hs.append(0); ks.append(a)
+            hs.append(h); ks.append(b)
+    if not ks:
+        return [-1.0, 1.0], [0]
+    return ks, hs
+
+
+def synthetic_pre_case(rng):
+    d = synthetic_case(rng)
+    span = max(-d["axis"][0], d["axis"][-1])
+    top = int(2 * span * 64)
+    pre = []
+    for _ in range(rng.choice([1, 1, 2, 2, 3])):
+        l, r = -rng.randint(1, top) / 64, rng.randint(1, top) / 64
+        if rng.random() < 0.15:             # exactly on a state
+            l = rng.choice(d["axis"][:d["o"]])
+        if rng.random() < 0.15:
+            r = rng.choice(d["axis"][d["o"] + 1:])
+        pre.append([rng.choice(["api", "class"]), l, r])
+    return dict(d, stream="synthetic_pre", pre=pre)
 
 
 # ------------------------------------------------------------------------------------------------- copula chains
@@ -550,7 +804,9 @@ def _copula_probe(ctx, d, cls, corr=True):
     if not abs(s - intensity) <= ORACLE_SUM_REL * len(states) * max(abs(intensity), 1e-300):
         ctx.fail("oracle", "c01.sum_rates_eq_intensity", d, {"sum_rates": s, "intensity": float(intensity), "n_states": len(states)}, cls=cls)
         return
-    if not (bst.intensity_of_jumps == intensity):
+    # two computations of the same sum of block masses: equal up to the rounding of the summation order (the statement says
+    # "the sum of the rates is the intensity the process reports", not that two internal sums agree to the last bit)
+    if not abs(float(bst.intensity_of_jumps) - float(intensity)) <= ORACLE_SUM_REL * len(states) * max(abs(intensity), 1e-300):
         ctx.fail("oracle", "c01.sum_rates_eq_intensity", d, {"what": "BinarySearchTreeAdapted.intensity_of_jumps != compute_intensity_of_jumps",
                                                            "bst": float(bst.intensity_of_jumps), "chain": float(intensity)}, cls=cls)
         return
@@ -732,6 +988,10 @@ def run(ctx, corr=True):
         unequal_axes_probe(ctx, dict(stream="edge_unequal", h=1.0, o=1, axes=[[-1.0, 0.0, 1.0, 2.0, 3.0], [-1.0, 0.0, 1.0]]))
         for _ in range(ctx.n(6, 60)):
             unequal_axes_probe(ctx, unequal_axes_case(rng))
+    # models whose measure was restricted before they reach the chain (kept last: the streams above draw the same cases as before)
+    run_pretruncated(ctx, ctx.n(80, 1500), kmax=2, nquad=ctx.n(6, 10 ** 9), corr=corr)
+    for _ in range(ctx.n(100, 2000)):
+        synthetic_probe(ctx, synthetic_pre_case(rng), corr=corr)
 
 
 def search(ctx):
@@ -741,13 +1001,18 @@ def search(ctx):
         synthetic_probe(ctx, synthetic_case(ctx.rng), corr=False)
     for _ in range(ctx.n(20, 60)):
         copula_probe(ctx, copula_case(ctx.rng, 2), corr=False)
+    run_pretruncated(ctx, ctx.n(80, 400), kmax=2, nquad=10 ** 9, corr=False)
+    for _ in range(ctx.n(100, 500)):
+        synthetic_probe(ctx, synthetic_pre_case(ctx.rng), corr=False)
 
 
 def replay(ctx, rec):
     d = rec["input"]
     cls = rec.get("cls", {})
-    if d.get("stream") == "synthetic":
+    if d.get("stream") in ("synthetic", "synthetic_pre"):
         synthetic_probe(ctx, d)
+    elif d.get("stream") == "1d_pre":
+        pretruncated_probe(ctx, d, 10 ** 9)
     elif d.get("stream") == "copula":
         d = dict(d, margins=[tuple(m) for m in d["margins"]])
         copula_probe(ctx, d)
